@@ -308,10 +308,19 @@ class LanguageAccept(Accept):
         """
         # Look for an exact match first. If a client accepts "en-US",
         # "en-US" is a valid match at this point.
+        matches = list(matches)
         result = super().best_match(matches)
 
         if result is not None:
             return result
+
+        # A tag that the client refused with q=0 stays refused, it is not a
+        # candidate for the partial matches below.
+        matches = [
+            item
+            for item in matches
+            if (found := self._best_single_match(item)) is None or found[1] > 0
+        ]
 
         # Fall back to accepting primary tags. If a client accepts
         # "en-US", "en" is a valid match at this point. Need to use
